@@ -111,6 +111,9 @@ type System struct {
 	// Observe, if set, extracts client-visible events from a committed step (gate-based runs)
 	Observe func(p *Proc, label, newPC string, local func(res string) tla.Value) interface{}
 	Steps   int
+	// CrashChoices lists the identifiers (prefixes) of either-choices whose LAST option is a crash of the
+	// process (a spec's mayFail macro); the biased policy of sysdrv takes that option with a small seeded rate
+	CrashChoices []string
 }
 
 // gate implements distsys.FairnessCounter for one process.
